@@ -72,6 +72,7 @@ impl PartialEq for ValueMatch {
             (I64(a), I64(b)) => a.eq(b),
             (NaN, NaN) => true,
             (Pat(a), Pat(b)) => a.eq(b),
+            (Debug(a), Debug(b)) => a.eq(b),
             _ => false,
         }
     }
